@@ -218,6 +218,14 @@ pub fn gen_real(t: &mut Tape, hard: bool) -> f64 {
     sign * a
 }
 
+/// PATHTYPE: half the time one of the values the format defines (4 = variable extensions), else any i16
+pub fn gen_path_type(t: &mut Tape) -> i16 {
+    if t.chance(1, 2) {
+        *t.pick(&[0i16, 1, 2, 4, 4])
+    } else {
+        gen_i16(t)
+    }
+}
 pub fn gen_i16(t: &mut Tape) -> i16 {
     match t.draw(6) {
         0 => 0,
@@ -254,7 +262,21 @@ fn gen_pts(t: &mut Tape, sw: &GdsSwarm) -> Vec<GdsPoint> {
         let p = gen_pt(t, sw);
         return (0..n).map(|i| GdsPoint::new(p.x.wrapping_add(i as i32), p.y)).collect();
     }
-    (0..n).map(|_| gen_pt(t, sw)).collect()
+    // relations between neighbours: a vertex repeated in place (zero-length segment), a polygon closed on its first vertex
+    let mut v: Vec<GdsPoint> = Vec::with_capacity(n as usize);
+    for _ in 0..n {
+        if !v.is_empty() && t.chance(1, 10) {
+            let last = v[v.len() - 1].clone();
+            v.push(last);
+        } else {
+            v.push(gen_pt(t, sw));
+        }
+    }
+    if v.len() >= 3 && t.chance(1, 6) {
+        let n1 = v.len() - 1;
+        v[n1] = v[0].clone();
+    }
+    v
 }
 fn opt(t: &mut Tape, sw: &GdsSwarm) -> bool {
     t.chance(sw.opt_pm, 1000)
@@ -313,7 +335,7 @@ pub fn gen_elem(t: &mut Tape, sw: &GdsSwarm, names: &[String]) -> GdsElement {
             datatype: gen_i16(t),
             xy: gen_pts(t, sw),
             width: if opt(t, sw) { Some(gen_i32(t, true)) } else { None },
-            path_type: if opt(t, sw) { Some(gen_i16(t)) } else { None },
+            path_type: if opt(t, sw) { Some(gen_path_type(t)) } else { None },
             begin_extn: if opt(t, sw) { Some(gen_i32(t, true)) } else { None },
             end_extn: if opt(t, sw) { Some(gen_i32(t, true)) } else { None },
             elflags: gen_elflags(t, sw),
@@ -337,7 +359,7 @@ pub fn gen_elem(t: &mut Tape, sw: &GdsSwarm, names: &[String]) -> GdsElement {
             texttype: gen_i16(t),
             xy: gen_pt(t, sw),
             presentation: if opt(t, sw) { Some(GdsPresentation(t.bits() as u8, t.bits() as u8)) } else { None },
-            path_type: if opt(t, sw) { Some(gen_i16(t)) } else { None },
+            path_type: if opt(t, sw) { Some(gen_path_type(t)) } else { None },
             width: if opt(t, sw) { Some(gen_i32(t, true)) } else { None },
             strans: gen_strans(t, sw),
             elflags: gen_elflags(t, sw),
@@ -412,6 +434,12 @@ pub fn gen_lib(t: &mut Tape, profile: StrProfile) -> (GdsLibrary, GdsSwarm) {
             }
         }
         structs.push(GdsStruct { name: names[i].clone(), dates, elems });
+        // one struct in 12 is followed by a verbatim copy of itself (same name, dates and elements): a legal value of
+        // the data model, and what concatenating two exports of one cell produces
+        if t.chance(1, 12) {
+            let tw = structs[structs.len() - 1].clone();
+            structs.push(tw);
+        }
     }
     // many structs, by the same device
     if wide && !structs.is_empty() && t.chance(1, 2) {
